@@ -43,3 +43,35 @@ M("cd2", "C15", CD, "        self.empty_list[self.get_label(key)] = empty", "   
 M("cd3", "C15", CD, "        empty = self.empty_list[label]\n        if empty is None:", "        empty = self.empty_list[label]\n        if not empty:", "cached False treated as unknown (harmless) / ... recomputed")
 M("cd4", "C15", CD, "            info = self.label_to_info.get(key)\n            if info is None:\n                raise KeyError(\"Key not in ClassDB.\")", "            info = self.label_to_info.get(min(key, len(self.label_to_info) - 1))\n            if info is None:\n                raise KeyError(\"Key not in ClassDB.\")", "too-large labels clamped to the last class")
 M("cd5", "C15", CD, "        if label < 0:\n            return None\n", "", "negative labels wrap around (the repaired defect)")
+
+RL = "comb_spec_searcher/strategies/rule.py"
+CS = "comb_spec_searcher/comb_spec_searcher.py"
+BA = "comb_spec_searcher/rule_db/base.py"
+SX = "comb_spec_searcher/specification_extrator.py"
+SP = "comb_spec_searcher/specification.py"
+DJ = "comb_spec_searcher/strategies/constructor/disjoint.py"
+CA = "comb_spec_searcher/strategies/constructor/cartesian.py"
+M("s1", "C01,C02", RL, "                    rules_parameters = {b: a for a, b in rules_parameters.items()}\n", "", "equivalence path: parameter map of a complement link not inverted")
+M("s2", "C01,C02,C11", RL, "        pshift = -original_shifts[self.idx]", "        pshift = original_shifts[self.idx]", "reverse rule shifts: sign of the flipped child's shift")
+M("s3", "C04,C01", CS, "            if rule.comb_class == comb_class:\n                start_label = label\n            else:\n                start_label = self.classdb.get_label(rule.comb_class)", "            start_label = label", "foreign-parent rules recorded under the expanded class")
+M("s4", "C04,C01", BA, "            if rule.possibly_empty and self.classdb.is_empty(comb_class, child_label):", "            if self.classdb.is_empty(comb_class, child_label) and len(ends) > 2:", "empty children only dropped from rules with more than two children")
+M("s5", "C01,C02", SX, "            rule = rule if len(rule.children) == 1 else rule.to_equivalence_rule()\n            return rule.to_reverse_rule(0)", "            rule = rule if len(rule.children) == 1 else rule.to_equivalence_rule()\n            return rule", "reverse direction of a two-way rule returned unreversed")
+M("s6", "C01", DJ, "                mapped_param = self._parent_param_map(param_map(param))\n                parent_terms_mapped[mapped_param] -= value", "                mapped_param = param_map(param)\n                parent_terms_mapped[mapped_param] -= value", "complement: sibling terms not mapped into the flipped child's coordinates")
+M("s7", "C01", CA, "        self._parent_shift = sum(self._min_sizes) - self._min_sizes[self.idx]", "        self._parent_shift = sum(self._min_sizes)", "quotient: parent shift includes the flipped child's minimum size")
+M("s8", "C04", CS, "                sym_label = end_labels[0]\n                self.classdb.set_empty(sym_label, empty)\n                self.ruledb.add(start_label, (sym_label,), rule)", "                sym_label = end_labels[0]\n                self.classdb.set_empty(sym_label, empty)\n                self.ruledb.add(sym_label, (start_label,), rule)", "symmetry rule recorded in the wrong direction")
+M("s9", "C01,C02", SP, "            if path_rules and path_rules[-1].children[0] in not_hidden_classes:", "            if path_rules and len(path_rules) >= 1:", "equivalence paths cut after every link (hidden classes lose their rule)")
+M("s10", "C01,C02", BA, "            rules_dict[self.equivdb[start]].add(\n                tuple(sorted(self.equivdb[e] for e in ends))\n            )", "            rules_dict[self.equivdb[start]].add(tuple(sorted(set(self.equivdb[e] for e in ends))))", "repeated equivalent children collapsed in rules up to equivalence")
+M("s11", "C01", DJ, "                if new_params[p] is None:\n                    new_params[p] = value\n                else:\n                    assert new_params[p] == value", "                new_params[p] = value if new_params[p] is None else new_params[p] + value", "union parameter map adds values when two child statistics feed one parent statistic")
+M("s12", "C01,C04", "comb_spec_searcher/rule_db/forest.py", "            if label not in self._already_empty and self.classdb.is_empty(\n                comb_class, label\n            ):", "            if label not in self._already_empty and label > 3 and self.classdb.is_empty(\n                comb_class, label\n            ):", "forest: no empty rule for empty classes with small labels")
+
+TS_ = "comb_spec_searcher/tree_searcher.py"
+M("p1", "C05", BA, "    def add(self, start: int, ends: Tuple[int, ...], rule: AbstractRule) -> None:\n        self._pruned_dict = None\n", "    def add(self, start: int, ends: Tuple[int, ...], rule: AbstractRule) -> None:\n", "cached pruned dictionary not invalidated on add")
+M("p2", "C05", TS_, "                    if maximum is None or actual_length < maximum:", "                    if maximum is None or actual_length <= maximum:", "bounded dfs accepts forests one node too large")
+M("p3", "C05", BA, "        self.equivdb.connect_cycles()\n        rules_dict: Dict[int, Set[Tuple[int, ...]]] = defaultdict(set)", "        rules_dict: Dict[int, Set[Tuple[int, ...]]] = defaultdict(set)", "cycles of one-way rules not connected before pruning")
+M("p4", "C05", BA, "                rules_dict = iterative_prune(\n                    rules_dict, root=self.equivdb[self.root_label]\n                )", "                rules_dict = iterative_prune(rules_dict, root=self.root_label)", "F4 reverted: iterative root label instead of representative")
+M("p5", "C05", BA, "        pruned_dict = self.pruned_dict\n        return self.equivdb[self.root_label] in pruned_dict", "        return self.equivdb[self.root_label] in self.pruned_dict", "F5 reverted: representative evaluated before cycles are connected")
+M("p6", "C05", TS_, "            new_max = maximum - len(root_labels) + 1 if maximum is not None else None", "            new_max = maximum - len(root_labels) if maximum is not None else None", "bounded dfs reserves one node too many for the siblings")
+M("p7", "C05", TS_, "        if not (v.label in seen or rule == ()):", "        if not rule == ():", "random proof tree re-expands labels already seen (may pick a second rule)")
+M("p8", "C05", BA, "            if len(ends) == 1 and self.are_equivalent(start, ends[0]):\n                continue\n", "", "rules inside an equivalence class kept as self-rules")
+M("p9", "C05", BA, "                maximum = min(middle, len(node))", "                maximum = middle", "smallest: bound not tightened to the tree found (equivalent)")
+M("p10", "C05", TS_, "                if all(x in verified_labels for x in rule):\n                    changed = True\n                    verified_labels.add(k)\n                    new_rules_dict[k].add(rule)\n                    rdict[k].remove(rule)\n            if not rule_set:\n                del rdict[k]\n        if not changed:\n            break\n    return new_rules_dict", "                if all(x in verified_labels for x in rule):\n                    changed = True\n                    verified_labels.add(k)\n                    new_rules_dict[k].add(rule)\n                    rdict[k].remove(rule)\n                    break\n            if not rule_set:\n                del rdict[k]\n        if not changed:\n            break\n    return new_rules_dict", "iterative prune: inner break (harmless reordering?)")
